@@ -24,7 +24,8 @@ EXTENDS Integers, Sequences, FiniteSets, TLC, Json
 
 CONSTANTS N, Me, H, MaxView, AmevOn, WatchFlag, DynOn,
           Family,                   \* set of menu families enabled: "core", "equiv", "junk", "recovery", "tx", "app"
-          DevEarlyCommitUnverified, Weaken, Emit, EmitLen
+          DevEarlyCommitUnverified, Weaken, Emit, EmitLen,
+          CoverMod                  \* state cover: print the schedule of one state in CoverMod (1 = every state)
 
 Node == INSTANCE DbftNode
 
@@ -33,15 +34,25 @@ Others == Val \ {Me}
 Tpb == 1000
 Now == 5000
 Cfg == [tpb |-> Tpb, maxTpb |-> IF DynOn THEN 3000 ELSE 0, inc |-> 1, amevH |-> IF AmevOn THEN 0 ELSE -1, watch |-> WatchFlag]
-Ledger == [height |-> H - 1, tip |-> "T:tip", tipTs |-> 4000, nvals |-> N, myIndex |-> Me, vals |-> [i \in 1..N |-> IF i - 1 = Me THEN 500 ELSE i - 1]]
-Prim(v) == (H - v) % N
+\* family "next": the node is also taken through Reset to height H + 1, and payloads of H + 1 (view 0) may arrive while it is
+\* still at H (future-message cache, replay in any order at Reset)
+HasNext == "next" \in Family \/ "next1" \in Family      \* "next1": next-height payloads from two senders only (small enough for a state cover)
+Hs == IF HasNext THEN {H, H + 1} ELSE {H}
+Tip(g) == IF g = H THEN "T:tip" ELSE "T:tip2"
+TipTs(g) == IF g = H THEN 4000 ELSE 4001
+LedgerAt(g) == [height |-> g - 1, tip |-> Tip(g), tipTs |-> TipTs(g), nvals |-> N, myIndex |-> Me, vals |-> [i \in 1..N |-> IF i - 1 = Me THEN 500 ELSE i - 1]]
+Ledger == LedgerAt(H)
+PrimAt(g, v) == (g - v) % N
+Prim(v) == PrimAt(H, v)
 Views == 0..MaxView
+ViewsAt(g) == IF g = H THEN Views ELSE {0}
 
 \* two proposal contents per view (equivocation needs the second one)
 Contents == IF "equiv" \in Family THEN {1, 2} ELSE {1}
 TxsOf(c) == IF "tx" \in Family THEN (IF c = 1 THEN <<"tA">> ELSE <<"tA", "tB">>) ELSE <<>>
-PropHash(v, c) == [h |-> H, v |-> v, from |-> Prim(v), ts |-> 4001, nonce |-> IF c = 1 THEN "101" ELSE "102", txs |-> TxsOf(c)]
-BlockOf(ph) == [h |-> H, prev |-> "T:tip", ts |-> ph.ts, nonce |-> ph.nonce, txs |-> ph.txs]
+PropHashAt(g, v, c) == [h |-> g, v |-> v, from |-> PrimAt(g, v), ts |-> TipTs(g) + 1, nonce |-> IF c = 1 THEN "101" ELSE "102", txs |-> TxsOf(c)]
+PropHash(v, c) == PropHashAt(H, v, c)
+BlockOf(ph) == [h |-> ph.h, prev |-> Tip(ph.h), ts |-> ph.ts, nonce |-> ph.nonce, txs |-> ph.txs]
 JunkHash(v) == [h |-> H, v |-> v, from |-> Prim(v), ts |-> 0, nonce |-> "junk0", txs |-> <<>>]
 JunkBlock == [h |-> 0, prev |-> "", ts |-> 0, nonce |-> "junk:junk0", txs |-> <<>>]
 
@@ -49,8 +60,19 @@ VARIABLES x, hist
 vars == <<x, hist>>
 
 \* hashes the environment may name at view v: foreign proposals, and the node's own one once it exists
-OwnProps(s, v) == IF s.started /\ s.v = v /\ Prim(v) = Me /\ s.prep[Me + 1].k = "req" THEN {s.prep[Me + 1].ph} ELSE {}
-Known(s, v) == (IF Prim(v) = Me THEN {} ELSE {PropHash(v, c) : c \in Contents}) \cup OwnProps(s, v)
+OwnPropsAt(s, g, v) == IF s.started /\ s.h = g /\ s.v = v /\ PrimAt(g, v) = Me /\ s.prep[Me + 1].k = "req" THEN {s.prep[Me + 1].ph} ELSE {}
+KnownAt(s, g, v) == (IF PrimAt(g, v) = Me THEN {} ELSE {PropHashAt(g, v, c) : c \in Contents}) \cup OwnPropsAt(s, g, v)
+Known(s, v) == KnownAt(s, H, v)
+\* payloads of the next height (view 0 only): the proposal, responses and valid commits of the others, change views
+NextMenu(s) ==
+  IF ~HasNext THEN {}
+  ELSE LET g == H + 1
+           From == IF "next1" \in Family THEN Others \cap {PrimAt(g, 0), (Me + 1) % N, (Me + 2) % N} ELSE Others IN
+    {[t |-> "PrepareRequest", h |-> g, v |-> 0, from |-> PrimAt(g, 0), ts |-> PropHashAt(g, 0, c).ts, nonce |-> PropHashAt(g, 0, c).nonce, txs |-> PropHashAt(g, 0, c).txs]
+       : c \in (IF PrimAt(g, 0) = Me THEN {} ELSE Contents)}
+    \cup {[t |-> "PrepareResponse", h |-> g, v |-> 0, from |-> i, ph |-> ph] : i \in From \ {PrimAt(g, 0)}, ph \in KnownAt(s, g, 0)}
+    \cup {[t |-> "Commit", h |-> g, v |-> 0, from |-> i, s |-> i, b |-> BlockOf(ph)] : i \in From, ph \in KnownAt(s, g, 0)}
+    \cup {[t |-> "ChangeView", h |-> g, v |-> 0, from |-> i, ts |-> Now, nv |-> 1, reason |-> 0] : i \in From}
 
 Reqs == {[t |-> "PrepareRequest", h |-> H, v |-> v, from |-> Prim(v), ts |-> PropHash(v, c).ts, nonce |-> PropHash(v, c).nonce, txs |-> PropHash(v, c).txs]
            : v \in {w \in Views : Prim(w) # Me}, c \in Contents}
@@ -80,10 +102,10 @@ Garbage == IF "junk" \in Family
                  [t |-> "PrepareRequest", h |-> H, v |-> 0, from |-> (Prim(0) + 1) % N, ts |-> 4001, nonce |-> "109", txs |-> <<>>]}
            ELSE {}
 Menu(s) == Reqs \cup Resps(s) \cup Sigs(s, "Commit") \cup (IF AmevOn \/ HasJunk THEN Sigs(s, "PreCommit") ELSE {})
-           \cup Cvs \cup RReqs \cup RMsgs(s) \cup Garbage
+           \cup Cvs \cup RReqs \cup RMsgs(s) \cup Garbage \cup NextMenu(s)
 
 \* what the application answers
-Envs == {[now |-> Now, ledger |-> Ledger, known |-> kn, pool |-> pl, bad |-> bd, failPre |-> fp, failBlock |-> fb, nilBlock |-> FALSE,
+EnvsAt(g) == {[now |-> Now, ledger |-> LedgerAt(g), known |-> kn, pool |-> pl, bad |-> bd, failPre |-> fp, failBlock |-> fb, nilBlock |-> FALSE,
           rejects |-> {}, nonce |-> "201", rttOldNext |-> 0, rmOrder |-> <<>>]
            : kn \in (IF "tx" \in Family THEN {{}, {"tA", "tB"}} ELSE {{}}),
              pl \in (IF "tx" \in Family THEN {<<>>, <<"tA">>} ELSE {<<>>}),
@@ -95,7 +117,8 @@ Env0 == [now |-> Now, ledger |-> Ledger, known |-> {}, pool |-> <<>>, bad |-> {}
 
 Calls(s) ==
   {[call |-> "OnReceive", arg |-> m] : m \in Menu(s)}
-  \cup {[call |-> "OnTimeout", arg |-> [h |-> H, v |-> v]] : v \in Views}
+  \cup {[call |-> "OnTimeout", arg |-> [h |-> s.h, v |-> v]] : v \in Views}
+  \cup (IF HasNext /\ s.blockDone /\ s.h = H THEN {[call |-> "Reset", arg |-> [ts |-> TipTs(H + 1)]]} ELSE {})
   \cup (IF "tx" \in Family THEN {[call |-> "OnTransaction", arg |-> [tx |-> t]] : t \in {"tA", "tB"}} ELSE {})
   \cup (IF DynOn THEN {[call |-> "OnNewTransaction", arg |-> [none |-> 0]]} ELSE {})
 
@@ -106,11 +129,13 @@ Bcasts(out) == {out[j].m : j \in {k \in 1..Len(out) : out[k].k = "Broadcast"}}
 Embedded(m) == IF m.t = "RecoveryMessage" THEN Node!Range(m.prep) \cup Node!Range(m.cvs) \cup Node!Range(m.pcs) \cup Node!Range(m.cms) ELSE {}
 OwnIn(m) == {m} \cup {p \in Embedded(m) : p.from = m.from}
 Kinds == {"PrepareRequest", "PrepareResponse", "Commit", "PreCommit", "ChangeView"}
+\* sent / nblock / npre are per height (cleared by Reset)
 Hist0 == [sent |-> {}, nblock |-> 0, npre |-> 0, evs |-> <<>>]
 NextHist(o, ev) ==
-  [sent |-> hist.sent \cup {p \in UNION {OwnIn(m) : m \in Bcasts(o.out)} : p.t \in Kinds},
-   nblock |-> hist.nblock + Cardinality({j \in 1..Len(o.out) : o.out[j].k = "ProcessBlock" /\ o.out[j].ok}),
-   npre |-> hist.npre + Cardinality({j \in 1..Len(o.out) : o.out[j].k = "ProcessPreBlock" /\ o.out[j].ok}),
+  LET base == IF ev.call = "Reset" THEN Hist0 ELSE hist IN
+  [sent |-> base.sent \cup {p \in UNION {OwnIn(m) : m \in Bcasts(o.out)} : p.t \in Kinds},
+   nblock |-> base.nblock + Cardinality({j \in 1..Len(o.out) : o.out[j].k = "ProcessBlock" /\ o.out[j].ok}),
+   npre |-> base.npre + Cardinality({j \in 1..Len(o.out) : o.out[j].k = "ProcessPreBlock" /\ o.out[j].ok}),
    evs |-> IF Emit THEN Append(hist.evs, ev) ELSE <<>>]
 
 Init == \E o \in Node!Api(Node!Blank(Cfg), "Start", [ts |-> Ledger.tipTs], Env0) :
@@ -122,7 +147,8 @@ Step(c, env) == \E o \in Node!Api(x, c.call, c.arg, env) :
                    /\ Strip(o) # x \/ o.out # <<>>          \* skip pure no-ops: they add no behaviour
                    /\ x' = Strip(o)
                    /\ hist' = NextHist(o, [call |-> c.call, arg |-> c.arg, env |-> env])
-Next == \E c \in Calls(x) : \E env \in Envs : Step(c, env)
+\* the application's ledger: at height H until Reset is called, which reads the advanced one
+Next == \E c \in Calls(x) : \E env \in EnvsAt(IF c.call = "Reset" THEN H + 1 ELSE x.h) : Step(c, env)
 Spec == Init /\ [][Next]_vars
 ViewBound == x.v <= MaxView
 View == <<x, hist.sent, hist.nblock, hist.npre>>
@@ -137,7 +163,7 @@ OneProposalPerView == \A a, b \in Own("PrepareRequest") : a.v = b.v => a = b
 OneResponsePerView == \A a, b \in Own("PrepareResponse") : a.v = b.v => a = b
 OneCommit == Cardinality({[v |-> p.v, s |-> p.s, b |-> p.b] : p \in Own("Commit")}) <= 1
 OnePreCommit == Cardinality({[v |-> p.v, s |-> p.s, b |-> p.b] : p \in Own("PreCommit")}) <= 1
-CommitLock == [][(Own("Commit") \cup Own("PreCommit") # {}) => (x'.v = x.v /\ Own("ChangeView")' = Own("ChangeView"))]_vars
+CommitLock == [][(Own("Commit") \cup Own("PreCommit") # {} /\ x'.h = x.h) => (x'.v = x.v /\ Own("ChangeView")' = Own("ChangeView"))]_vars
 \* C04: whenever the node holds its own commit (pre-commit) of the current view, it holds the proposal and M matching preparations
 ReqPh == x.prep[x.primary + 1].ph
 Matching == {i \in 1..x.n : x.prep[i].k \in {"req", "resp"} /\ x.prep[i].v = x.v /\ x.prep[i].ph = ReqPh}
@@ -145,7 +171,7 @@ LockSlot == IF x.amev THEN x.pc[Me + 1] ELSE x.cm[Me + 1]
 CommitEvidence == (x.me = Me /\ ~x.watch /\ LockSlot.k # "none" /\ LockSlot.v = x.v) =>
                      (x.prep[x.primary + 1].k = "req" /\ Cardinality(Matching) >= M /\ Node!Range(x.txs) \subseteq x.have)
 ViewEvidence == x.v > 0 => Cardinality({i \in 1..x.n : x.lastcv[i].k = "cv" /\ x.lastcv[i].nv >= x.v}) >= M
-ResponseEvidence == \A p \in Own("PrepareResponse") : p.v = x.v => (x.prep[x.primary + 1].k = "req" /\ p.ph = ReqPh /\ ReqPh.from = Prim(x.v))
+ResponseEvidence == \A p \in Own("PrepareResponse") : p.v = x.v => (x.prep[x.primary + 1].k = "req" /\ p.ph = ReqPh /\ ReqPh.from = PrimAt(x.h, x.v))
 \* C02: once the block is handed over, M commits of the view verify against it
 ValidCm == {i \in 1..x.n : x.cm[i].k = "cm" /\ x.cm[i].v = x.v /\ x.cm[i].s = x.vals[i] /\ x.cm[i].b = Node!CtxBlock(x)}
 Certificate == x.blockDone => Cardinality(ValidCm) >= M      \* view and tables are frozen once the block is handed over
@@ -154,6 +180,17 @@ ValidPc == {i \in 1..x.n : x.pc[i].k = "pc" /\ x.pc[i].v = x.v /\ x.pc[i].s = x.
 PreCertificate == [][hist'.npre > hist.npre => Cardinality({i \in 1..x'.n : x'.pc[i].k = "pc" /\ x'.pc[i].v = x'.v /\ x'.pc[i].s = x'.vals[i] /\ x'.pc[i].b = Node!CtxBlock(x')}) >= M]_vars
 \* C05
 OneDecision == hist.nblock <= 1 /\ (x.blockDone <=> hist.nblock = 1)
+\* C05, Reset: the next height starts from the ledger and from nothing but the payloads cached for it, and those are used
+FromCacheM(slot, i, kind) == slot.k = "none" \/ i = Me + 1 \/ \E c \in x.cache : c.h = x.h + 1 /\ c.kind = kind /\ c.from = i - 1
+ResetClean == [][x'.h # x.h =>
+                  /\ x'.h = x.h + 1 /\ x.blockDone /\ x'.prev = Tip(x'.h) /\ x'.lbTs = TipTs(x'.h) /\ x'.primary = PrimAt(x'.h, x'.v)
+                  /\ \A i \in 1..x'.n : /\ FromCacheM(x'.prep[i], i, "prepare") /\ FromCacheM(x'.cm[i], i, "commit")
+                                         /\ FromCacheM(x'.pc[i], i, "preCommit") /\ FromCacheM(x'.cv[i], i, "chViews") /\ FromCacheM(x'.lastcv[i], i, "chViews")
+                                         /\ (x'.cm[i].k = "cm" /\ i # Me + 1 => \E c \in x.cache : c.h = x'.h /\ c.kind = "commit" /\ c.from = i - 1 /\ c.p.s = x'.cm[i].s /\ c.p.b = x'.cm[i].b)
+                  /\ \A c \in x'.cache : c.h > x'.h
+                  /\ x'.have \subseteq Node!Range(x'.txs)]_vars
+EarlyUsed == [][(x'.h = x.h + 1 /\ x'.v = 0) =>
+                  \A c \in x.cache : (c.h = x'.h /\ c.kind = "prepare" /\ c.p.t = "PrepareRequest" /\ c.p.v = 0 /\ c.from = PrimAt(x'.h, 0)) => x'.prep[c.from + 1].k = "req"]_vars
 \* C07
 PreBlockOnce == hist.npre <= 1
 PhaseOrder == (x.amev /\ Own("Commit") # {}) => (Own("PreCommit") # {} /\ x.preDone)
@@ -168,4 +205,7 @@ PrimaryOK == x.primary = (x.h - x.v) % x.n
 
 \* behaviours for the script driver (spec -> code): printed by `tlc -simulate` at the depth bound
 EmitBehaviour == (Emit /\ Len(hist.evs) \in {EmitLen, EmitLen \div 2, 6}) => PrintT(<<"BEHAVIOUR", ToJson(hist.evs)>>)
+\* state cover (spec -> code): in breadth-first mode every distinct state is reached by exactly one stored schedule (hist is
+\* hidden by VIEW); printing it for every state gives a prefix-closed tree of schedules whose leaves visit every reachable state
+EmitCover == (Emit /\ (CoverMod = 1 \/ TLCGet("generated") % CoverMod = 0)) => PrintT(<<"COVER", ToJson(hist.evs)>>)
 =============================================================================
